@@ -199,6 +199,10 @@ impl Minifier
 				} else {
 					if txt.len() > 4 {
 						// if it is longer than 4 characters we gain something by guarding with parenthesis
+						if self.minified_line.ends_with("$") {
+							// a PRINT item ending in a string variable: `A$(AB)` would read as an array reference
+							self.minified_line += ";";
+						}
 						self.minified_line += "(";
 						self.minified_line += &txt[0..2];
 						self.minified_line += ")";
@@ -296,7 +300,9 @@ impl Minifier
 							return Ok(Navigation::GotoSibling);
 						} else if let Some(prev) = curs.node().prev_named_sibling() {
 							let txt = lang::node_text(&prev,&self.line);
-							if txt.ends_with("\"") || txt.ends_with(")") || txt.ends_with("$") {
+							// a string variable run together with `(` would read as an array reference
+							let opens_paren = lang::node_text(&next,&self.line).trim_start().starts_with("(");
+							if txt.ends_with("\"") || txt.ends_with(")") || (txt.ends_with("$") && !opens_paren) {
 								return Ok(Navigation::GotoSibling);
 							}
 						}
